@@ -45,6 +45,9 @@ func (w *IntegWorld) ConfigMap() map[string]interface{} {
 		if t.ExportAs != "" {
 			m["exportas"] = t.ExportAs
 		}
+		if t.Interactive {
+			m["interactive"] = true
+		}
 		if len(t.Env) > 0 {
 			m["env"] = t.Env
 		}
@@ -346,6 +349,23 @@ func GenOverrideWorld(ch *Choices, thorough bool) *IntegWorld {
 	}
 	if ch.Bool(1, 3, "task-dir") {
 		t.Dir = "/vs/taskdir"
+	}
+	if ch.Bool(1, 3, "hooks") {
+		// hooks see the stage's values too; some use the shell idiom NAME=${NAME:-default}, which
+		// turns the environment value into a shell variable of the interpreter that runs the hook
+		t.HookText = map[string]string{}
+		t.NBefore = ch.Choose(2, "n-before")
+		t.NAfter = 1 - t.NBefore + ch.Choose(2, "n-after-extra")
+		idiom := ""
+		if ch.Bool(2, 3, "shell-default-idiom") {
+			idiom = "VS_E0=${VS_E0:-none}; "
+		}
+		for i := 0; i < t.NBefore; i++ {
+			t.HookText[fmt.Sprintf("before/%d", i)] = idiom + cmdText("shared", "before", i) + argv
+		}
+		for i := 0; i < t.NAfter; i++ {
+			t.HookText[fmt.Sprintf("after/%d", i)] = idiom + cmdText("shared", "after", i) + argv
+		}
 	}
 	if ch.Bool(1, 3, "variations") {
 		// variation values are passed to the commands as they are written
